@@ -384,6 +384,13 @@ func TestC19Ws(t *testing.T) {
 		emit(wsScenario{Acts: []wsAct{{Op: "W", E: 0}, {Op: "R"}}, Envs: []genEnv{g}, Limit: 0, Tag: "default-read-limit", Sig: sig})
 	}
 
+	// (1c) the upper end of the body range (1 MiB and just below, the largest envelope the property covers),
+	// on a connection whose read limit the caller has lifted: written, read, equal; then a small one behind it
+	for _, g := range genEdgeEnvelopes(newRand(1912)) {
+		tail := genEnv{E: &Rpc{Id: 4, Header: &goatorepo.RequestHeader{Method: "/s/m", Source: "a"}, Body: &goatorepo.Body{Data: []byte("after")}}}
+		emit(wsScenario{Acts: []wsAct{{Op: "W", E: 0}, {Op: "W", E: 1}, {Op: "R"}, {Op: "R"}}, Envs: []genEnv{g, tail}, Limit: -1, Tag: "edge-size"})
+	}
+
 	// (2) every short sequence over the action alphabet
 	small := []genEnv{{E: &Rpc{Id: 7, Header: &goatorepo.RequestHeader{Method: "/s/m", Source: "a", Destination: "b"}, Body: &goatorepo.Body{Data: []byte("payload")}}},
 		{E: &Rpc{Id: 1<<64 - 1, Status: &goatorepo.ResponseStatus{Code: 5, Message: "né"}, Trailer: &goatorepo.Trailer{}}}}
